@@ -200,7 +200,7 @@ def giter(ctx, it, ob, restart, case):
     ws, q = ctx.gstate_obs(ob)
     calls = glist(ctx.gcall(c) for c in ob["calls"])
     ret = case["retention"]
-    return "(CIter {} {} [] {} {} {} {} {} {} {})".format(
+    return "(CIter {} {} [] {} {} {} {} {} {} {} [])".format(
         gZ(it["now"]), gbool(restart), calls, glist(ws), q,
         gZ(ob["next"] if ob["next"] is not None else -1), gbool(ob["exc"] is not None), gZ(it["limit"]),
         "None" if not ret else f"(Some {gZ(ret * clicase.DAY)})")
